@@ -5,8 +5,10 @@
 (* quiescence):                                                            *)
 (*   req   attributes + concrete stream id of a HEADERS frame, what came   *)
 (*         back (obs), which handlers started (entered), the handlers      *)
-(*         running afterwards (running), connection still open (alive)     *)
-(*   rst / fin   client cancel / handler release of a running stream       *)
+(*         running afterwards (running), the admitted streams still open   *)
+(*         on the wire (active), connection still open (alive)             *)
+(*   rst / fin / finmsg / winup   client cancel / handler return without   *)
+(*         and with a 4 KB response / client WINDOW_UPDATE                 *)
 (*   raw   mutated bytes were sent: only the generic clauses apply         *)
 (*   crash the driver process died while executing this behaviour          *)
 (* The monitor follows the OBSERVED connection state (running, alive); the *)
@@ -16,14 +18,19 @@ EXTENDS PeerGrammarServer, TraceIO
 CONSTANT TolerateReuse   \* 1: the clause of the known finding (see checks/C12.py) is switched off
 VARIABLES l
 vars == <<pvars, l>>
-Init == /\ alive = TRUE /\ cap = 1 /\ hiSent = 0 /\ maxAdm = 0 /\ open = {} /\ viol = "none" /\ l = 1 /\ InitRegs
+Init == /\ alive = TRUE /\ cap = 1 /\ win = "normal" /\ hiSent = 0 /\ maxAdm = 0 /\ open = {} /\ blocked = {}
+        /\ viol = "none" /\ l = 1 /\ InitRegs
 Ev == Trace[l]
 ToSet(s) == {s[i] : i \in 1..Len(s)}
 H(e) == [sid |-> e.sid, meth |-> e.meth, ct |-> e.ct, te |-> e.te, to |-> e.to, au |-> e.au, conn |-> e.conn,
          bin |-> e.bin, big |-> e.big, es |-> e.es]
+\* running = streams whose handler runs; active = admitted streams still open on the wire (no END_STREAM / RST_STREAM
+\* seen or sent): both are streams the server must count
+Counted(e) == ToSet(e.running) \cup ToSet(e.active)
 Generic(e) == /\ Mark(Get(e, "panic", 0) # 0, "I_NoPanic", l)
-              /\ Mark(Len(e.running) > cap, "I_MaxStreams", l)
-Follow(e) == alive' = e.alive /\ open' = ToSet(e.running) /\ UNCHANGED <<cap, viol>>
+              /\ Mark(Cardinality(Counted(e)) > cap, "I_MaxStreams", l)
+Follow(e) == /\ alive' = e.alive /\ open' = ToSet(e.running) /\ blocked' = ToSet(e.active) \ ToSet(e.running)
+             /\ UNCHANGED <<cap, win, viol>>
 SameObs(o, d) == /\ o.k = d.k
                  /\ (d.k = "abort" => o.http = d.http /\ o.grpc = d.grpc)
                  /\ (d.k = "rst" => o.code = d.code)
@@ -48,10 +55,18 @@ ReqStep(e) ==
 Step ==
   CASE Ev.ev = "req" -> ReqStep(Ev)
     [] Ev.ev \in {"rst", "fin"} -> /\ Generic(Ev)
-                                   /\ Drift(Ev.sid \in ToSet(Ev.running), "D_StillRunning", l)
+                                   /\ Drift(Ev.sid \in Counted(Ev), "D_StillRunning", l)
                                    /\ Follow(Ev) /\ UNCHANGED <<hiSent, maxAdm>>
+    [] Ev.ev = "finmsg" -> /\ Generic(Ev)
+                           /\ Drift(Ev.sid \in ToSet(Ev.running), "D_StillRunning", l)
+                           /\ Drift((win = "tiny") # (Ev.sid \in ToSet(Ev.active)), "D_Blocked", l)
+                           /\ Follow(Ev) /\ UNCHANGED <<hiSent, maxAdm>>
+    [] Ev.ev = "winup" -> /\ Generic(Ev)
+                          /\ Drift(Ev.sid \in Counted(Ev), "D_StillBlocked", l)
+                          /\ Follow(Ev) /\ UNCHANGED <<hiSent, maxAdm>>
     [] Ev.ev = "raw" -> Generic(Ev) /\ Follow(Ev) /\ UNCHANGED <<hiSent, maxAdm>>
     [] Ev.ev = "crash" -> Mark(TRUE, "I_NoPanic", l) /\ UNCHANGED pvars
-    [] Ev.ev = "reset" -> /\ alive' = TRUE /\ cap' = Ev.cap /\ hiSent' = 0 /\ maxAdm' = 0 /\ open' = {} /\ viol' = "none"
+    [] Ev.ev = "reset" -> /\ alive' = TRUE /\ cap' = Ev.cap /\ win' = Get(Ev, "win", "normal") /\ hiSent' = 0 /\ maxAdm' = 0
+                          /\ open' = {} /\ blocked' = {} /\ viol' = "none"
 Next == l <= TLen /\ l' = l + 1 /\ Consumed(l) /\ Step
 ====
